@@ -6,6 +6,7 @@ in cthreads.py.
 """
 
 import errno
+import os
 import hashlib
 import heapq
 import socket as _real_socket
@@ -454,7 +455,9 @@ class SimSocket(object):
           # it too (and will close from its side)
           self.rx_reset = True
           sim._poke()
-        raise ConnectionResetError(out[1], "Connection reset by peer")
+        # (OSError picks the subclass the errno calls for: ConnectionReset,
+        # BrokenPipe, TimeoutError for ETIMEDOUT, ... as a real send() does)
+        raise OSError(out[1], os.strerror(out[1]))
       if out[0] == "part":
         # accept between 1 and n-1 bytes (all if n == 1)
         k = max(1, min(n, (n * out[1]) // 256)) if n else 0
@@ -466,7 +469,7 @@ class SimSocket(object):
         self.tx_fatal = None
         self.tx_dead = True
         sim.stats["tx_fatal"] += 1
-        raise ConnectionResetError(e, "Connection reset by peer")
+        raise OSError(e, os.strerror(e))
       if self.tx_credit is None:
         k = n
       elif self.tx_credit <= 0:
